@@ -1,5 +1,6 @@
 """C10 — wire encodings round-trip; decoders are total (structural part)."""
 from engine.rulelib import *
+import re
 from engine import desc as D
 from rules import C03 as _c03
 
@@ -14,6 +15,131 @@ RULE = "rule instances = table-agreement comparisons and guarded-read sites; non
 
 def switch_values(br):
     return sorted(v for v, _ in br.edges if v is not None)
+
+
+# --------------------------------------------------------------------------
+# small structural helpers (value sets of descriptors, exact shapes, edges)
+# --------------------------------------------------------------------------
+
+def _ival(v):
+    try:
+        return int(str(v).split('_')[0], 0)
+    except ValueError:
+        return None
+
+
+_OPS = {
+    'Add': lambda a, b: a + b, 'Sub': lambda a, b: a - b, 'Mul': lambda a, b: a * b,
+    'Div': lambda a, b: a // b if b else None, 'Rem': lambda a, b: a % b if b else None,
+    'BitAnd': lambda a, b: a & b, 'BitOr': lambda a, b: a | b, 'BitXor': lambda a, b: a ^ b,
+    'Shl': lambda a, b: a << b if 0 <= b < 64 else None, 'Shr': lambda a, b: a >> b if 0 <= b < 64 else None,
+}
+
+
+def evs(d, env=None, body=None, ranges=None):
+    """the set of integer values a descriptor can take (casts are erased by the describer), or None when it is not
+    decidable.  env: {param index: set}; bool parameters of `body` range over {0, 1}; `RangeInclusive::start/end` of a
+    named range constant is looked up in `ranges` ({last path segment: (start, end)})."""
+    t = d[0]
+    if t == 'const':
+        if d[1] != 'int':
+            return None
+        v = _ival(d[2])
+        return None if v is None else {v}
+    if t == 'param':
+        if env and d[1] in env:
+            return set(env[d[1]])
+        if body is not None and body.locals[d[1]][0] == 'bool':
+            return {0, 1}
+        return None
+    if t == 'phi':
+        out = set()
+        for x in d[1]:
+            r = evs(x, env, body, ranges)
+            if r is None:
+                return None
+            out |= r
+        return out
+    if t == 'bin' and d[1] in _OPS:
+        a, b = evs(d[2], env, body, ranges), evs(d[3], env, body, ranges)
+        if a is None or b is None or len(a) * len(b) > 4096:
+            return None
+        out = set()
+        for x in a:
+            for y in b:
+                r = _OPS[d[1]](x, y)
+                if r is None or r < 0:
+                    return None
+                out.add(r)
+        return out
+    if t == 'call' and d[1] in ('RangeInclusive::start', 'RangeInclusive::end') and len(d[3]) == 1 and d[3][0][0] == 'const' and d[3][0][3] and ranges:
+        r = ranges.get(d[3][0][3].split('::')[-1])
+        if r is not None:
+            return {r[0] if d[1].endswith('start') else r[1]}
+    return None
+
+
+def _is_c(d, v):
+    return d[0] == 'const' and d[1] == 'int' and _ival(d[2]) == v
+
+
+def _bin(d, op):
+    return d[0] == 'bin' and d[1] == op and len(d) >= 4
+
+
+def _comm(d, op, pa, pb):
+    """commutative node `op` whose operands satisfy pa and pb in either order"""
+    return _bin(d, op) and ((pa(d[2]) and pb(d[3])) or (pa(d[3]) and pb(d[2])))
+
+
+def _kids(d):
+    t = d[0] if d else None
+    if t in ('field', 'variant', 'index', 'discr', 'overflow'):
+        return [d[1]]
+    if t == 'un':
+        return [d[2]]
+    if t == 'bin':
+        return [d[2], d[3]]
+    if t in ('call', 'agg'):
+        return list(d[3])
+    if t == 'phi':
+        return list(d[1])
+    return []
+
+
+def _bare(d, pred, stops):
+    """pred holds for a node of d that is not inside a sub-tree satisfying one of `stops`"""
+    if not isinstance(d, tuple) or any(s(d) for s in stops):
+        return False
+    if pred(d):
+        return True
+    return any(_bare(k, pred, stops) for k in _kids(d))
+
+
+def _contains(d, pred):
+    return any(pred(x) for x in walk(d))
+
+
+def rel_edges(F, body, pred):
+    """(Branch, target) of every branch edge on which a relation (op, a, b) satisfying pred holds"""
+    out = []
+    for br in branches(F, body):
+        for truth in (True, False):
+            rel = relation_on(br.desc, truth)
+            if rel is not None and pred(*rel):
+                out.append((br, br.target(1 if truth else 0)))
+    return out
+
+
+def only_via(body, edges, bb):
+    """every path entry -> bb uses one of the edges of the list [(Branch, target)] (and there is one)"""
+    return bool(edges) and bb not in body.reachable_from(0, avoid_edges={(br.bb, t) for br, t in edges})
+
+
+def closures_of(F, body, d):
+    """closure bodies constructed in descriptor d"""
+    names = {x[2] for x in walk(d) if x[0] == 'agg' and x[1] == 'closure'}
+    return [b for b in F.bodies.values() if b.kind == 'closure' and b.canon in names]
 
 
 def rule_b(ctx):
@@ -33,22 +159,46 @@ def rule_b(ctx):
                   'frame types without a decode arm: %s; decode arms without a constant: %s' % (sorted(hex(x) for x in cv - vals), sorted(hex(x) for x in vals - cv)))
     # stream / datagram ranges handled in the fallback arm
     ctx.check(bool(tn.calls_to('FrameType::stream')) and bool(tn.calls_to('FrameType::datagram')), 'b', 'ranged_types_decoded', tn, tn.where(), 'STREAM/DATAGRAM type ranges handled', 'STREAM or DATAGRAM type ranges are no longer decoded')
-    # encoders
+    # encoders: named constants, and literal `FrameType(<expr>)` writes whose value set is computed
     written = {}
+    ranges = {}
+    for p, c in F.consts.items():
+        if '::frame::' in p and 'RangeInclusive' in c.get('ty', ''):
+            m = re.search(r'start: (\d+)_u64, end: (\d+)_u64', str(c.get('val', '')))
+            if m:
+                ranges[p.split('::')[-1]] = (int(m.group(1)), int(m.group(2)))
+    ctx.check({'STREAM_TYS', 'DATAGRAM_TYS'} <= set(ranges), 'b', 'frame_type_ranges', 'FrameType', '', str(sorted(ranges.items())), 'STREAM_TYS / DATAGRAM_TYS range constants not found')
+    allowed = set(consts.values())
+    for lo, hi in ranges.values():
+        allowed |= set(range(lo, hi + 1))
+    unknown = {}
+    n_lit = 0
     for c in F.all_calls('quinn_proto'):
         if (c.is_('BufMutExt::write') or short(c.f).endswith('BufMutExt>::write')) and any('FrameType' in g for g in c.ga):
-            ad = arg_desc(F, c, 1)
-            for x in walk(ad):
+            root = F.root_of(c.body)
+            for x in flat(arg_desc(F, c, 1)):
                 if x[0] == 'const' and x[3] and 'FrameType::' in x[3]:
-                    written.setdefault(x[3].split('::')[-1], []).append(F.root_of(c.body).short)
+                    written.setdefault(x[3].split('::')[-1], []).append(root.short)
+                elif x[0] == 'agg' and x[1] == 'adt' and x[2].endswith('FrameType::FrameType') and len(x[3]) == 1:
+                    n_lit += 1
+                    vs = evs(x[3][0], None, c.body, ranges)
+                    if vs is None:
+                        unknown[c.where()] = 'value of FrameType(%s) cannot be computed' % D.render(x[3][0])[:100]
+                    elif vs - allowed:
+                        unknown[c.where()] = '%s writes frame type(s) %s that no decoder arm or range accepts' % (root.short, sorted(hex(v) for v in vs - allowed))
+                else:
+                    unknown[c.where()] = '%s writes a frame type that is neither a table constant nor a computable literal: %s' % (root.short, D.render(x)[:100])
+    ctx.floor('b', 'literal_frame_type_writes', n_lit, 1)
     NEVER_SENT = {'PADDING': 'padding is produced by zero-filling the buffer', 'DATA_BLOCKED': 'quinn never sends DATA_BLOCKED', 'STREAM_DATA_BLOCKED': 'quinn never sends STREAM_DATA_BLOCKED'}
     for name in sorted(consts):
         if name in NEVER_SENT:
             ctx.ok('b', 'frame_type_has_encoder', 'FrameType::' + name, '', 'exception: ' + NEVER_SENT[name])
             continue
         ctx.check(name in written, 'b', 'frame_type_has_encoder', 'FrameType::' + name, '', 'written by %s' % sorted(set(written.get(name, [])))[:3], 'FrameType::%s is decoded but no encoder writes it' % name)
-    unknown = set(written) - set(consts)
-    ctx.check(not unknown, 'b', 'encoders_use_known_types', 'FrameType', '', 'all written types are table constants', 'encoders write unknown frame types %s' % unknown)
+    for name in sorted(set(written) - set(consts)):
+        unknown['FrameType::' + name] = 'written but not an integer table constant'
+    ctx.check(not unknown, 'b', 'encoders_use_known_types', 'FrameType', '', 'every written type is a table constant or lies in STREAM_TYS / DATAGRAM_TYS (%d literal writes evaluated)' % n_lit,
+              'encoders write unknown frame types: %s' % sorted(unknown.items()))
     # Frame::ty covers every Frame variant
     fr = F.adt('frame::Frame')
     ty = ctx.pfn('Frame::ty')
@@ -156,78 +306,258 @@ def rule_d(ctx):
         if D.has_param(br.desc, name='len'):
             dv |= set(switch_values(br))
     ctx.check(dv == {1, 2, 3, 4}, 'd', 'packet_number_decode_lengths', pn_dec, pn_dec.where(), str(sorted(dv)), 'PacketNumber::decode dispatches on lengths %s' % sorted(dv))
+    # decode_len: evaluated for every first byte, must equal 1 + (low two bits) -- any equivalent formula is accepted
     rd = [x for _, x in ret_descs(F, pn_dl)]
-    ok = all(x[0] == 'bin' and x[1] == 'Add' and D.has_const(x, 1) and D.has_const(x, 3) for x in rd)
-    ctx.check(ok, 'd', 'packet_number_decode_len_formula', pn_dl, pn_dl.where(), '1 + (tag & 3)', 'decode_len is no longer 1 + (tag & 0x03)')
-    # expansion guards compare the candidate on both sides
+    ok = bool(rd) and pn_dl.argc == 1 and all(evs(x, {1: {t}}) == {1 + (t & 3)} for x in rd for t in range(256))
+    ctx.check(ok, 'd', 'packet_number_decode_len_formula', pn_dl, pn_dl.where(), '1 + (tag & 3) for all 256 tag bytes', 'decode_len is no longer 1 + (tag & 0x03): ' + ' | '.join(D.render(x)[:80] for x in rd))
+    rule_d_expand(ctx)
+
+
+# ---- PacketNumber::expand (RFC 9000 A.3): shapes are decided on the fully expanded value descriptors, never on local names
+def _pn_self(d):
+    return d[0] == 'param' and d[1] == 1
+
+
+def _pn_expected(d):
+    return d[0] == 'param' and d[1] == 2
+
+
+def _pn_nbits(d):
+    is_len = lambda x: x[0] == 'call' and x[1] == 'PacketNumber::len' and len(x[3]) == 1 and _pn_self(x[3][0])
+    return _comm(d, 'Mul', is_len, lambda x: _is_c(x, 8)) or (_bin(d, 'Shl') and is_len(d[2]) and _is_c(d[3], 3))
+
+
+def _pn_win(d):
+    return _bin(d, 'Shl') and _is_c(d[2], 1) and _pn_nbits(d[3])
+
+
+def _pn_hwin(d):
+    return ((_bin(d, 'Div') and _pn_win(d[2]) and _is_c(d[3], 2)) or (_bin(d, 'Shr') and _pn_win(d[2]) and _is_c(d[3], 1))
+            or (_bin(d, 'Shl') and _is_c(d[2], 1) and _bin(d[3], 'Sub') and _pn_nbits(d[3][2]) and _is_c(d[3][3], 1)))
+
+
+def _pn_mask(d):
+    return _bin(d, 'Sub') and _pn_win(d[2]) and _is_c(d[3], 1)
+
+
+def _pn_trunc(d):
+    alts = flat(d)
+    ok = all(x[0] == 'field' and x[2] == '0' and x[1][0] == 'variant' and _pn_self(x[1][1]) for x in alts)
+    return ok and {x[1][2] for x in alts} == {'U8', 'U16', 'U24', 'U32'}
+
+
+def _pn_cand(d):
+    keep_high = lambda x: _comm(x, 'BitAnd', _pn_expected, lambda y: y[0] == 'un' and y[1] == 'Not' and _pn_mask(y[2]))
+    return _comm(d, 'BitOr', keep_high, _pn_trunc)
+
+
+def rule_d_expand(ctx):
+    F = ctx.facts
     ex = ctx.pfn('PacketNumber::expand')
-    brs = [br for br in branches(F, ex, stop_named=True) if relation_on(br.desc, True)]
+    has_cand = lambda d: _contains(d, _pn_cand)
+    stops = (_pn_cand, _pn_hwin, _pn_mask)
+    # every comparison against the bare window must test the candidate
     cand = 0
-    for br in brs:
-        o, a, b = relation_on(br.desc, True)
-        if 'win' in D.render(a) + D.render(b) and 'hwin' not in D.render(a) + D.render(b):
-            # the `> win` / `< (1<<62) - win` guards must test `candidate`
-            if 'candidate' in D.render(a) + D.render(b):
+    for br in branches(F, ex):
+        rel = relation_on(br.desc, True)
+        if rel is None:
+            continue
+        o, a, b = rel
+        if _bare(a, _pn_win, stops) or _bare(b, _pn_win, stops):
+            if has_cand(a) or has_cand(b):
                 cand += 1
             else:
                 ctx.bad('d', 'pn_expand_guard_on_candidate', ex, br.where(), 'a window-wrap guard of PacketNumber::expand does not test `candidate`: %s' % D.render(br.desc)[:160])
     ctx.check(cand >= 1, 'd', 'pn_expand_guard_on_candidate', ex, ex.where(), '%d candidate window guards' % cand, 'PacketNumber::expand lost a candidate-vs-window guard')
     # RFC 9000 A.3 shape: the decoding window is centred on `expected`: (expected - hwin, expected + hwin], hwin = win / 2
-    dx = describer(F, ex)
-    hw = local_defs_desc(ctx, ex, 'hwin')
-    okh = len(hw) == 1 and hw[0][0] == 'bin' and hw[0][1] == 'Div' and D.has_const(hw[0][3], 2) and D.has_const(hw[0][2], 1) and D.calls_in(hw[0]) <= {'PacketNumber::len'}
-    ctx.check(okh, 'd', 'pn_expand_half_window', ex, ex.where(), 'hwin = (1 << nbits) / 2', 'hwin is no longer half the truncation window: ' + ' | '.join(D.render(x)[:80] for x in hw))
-
-    def is_local(d, name):
-        return d[0] == 'local' and len(d) > 2 and d[2] == name
-    up = lo = wn = None
-    for br in brs:
-        o, a, b = relation_on(br.desc, True)
-        if o == 'Lt' and is_local(b, 'candidate') and a[0] == 'bin' and a[1] == 'Add' and {True} == {is_local(x, 'hwin') or (x[0] == 'param' and x[2] == 'expected') for x in (a[2], a[3])} and D.has_param(a, name='expected') and 'hwin' in D.render(a):
-            up = br
-        if o == 'Lt' and is_local(b, 'candidate') and is_local(a, 'win'):
-            wn = br
-    for br in branches(F, ex, stop_named=True):
-        d = br.desc
-        if d[0] == 'call' and d[1] == 'Option::is_some_and' and D.has_call(d[3][0], 'u64::checked_sub'):
-            cs = [x for x in walk(d[3][0]) if x[0] == 'call' and x[1] == 'u64::checked_sub'][0]
-            okc = cs[3][0][0] == 'param' and cs[3][0][2] == 'expected' and is_local(cs[3][1], 'hwin')
-            cl = [b for b in F.code_bodies('quinn_proto') if b.kind == 'closure' and F.root_of(b).id == ex.id]
-            okr = any(x == ('bin', 'Le', ('upvar', 'candidate'), ('param', x[3][1] if x[3][0] == 'param' else 0, x[3][2] if x[3][0] == 'param' else '')) for b in cl for _, x in ret_descs(F, b) if x[0] == 'bin' and len(x) >= 4 and isinstance(x[3], tuple) and len(x[3]) >= 3)
+    # offsets applied to `expected` in the window-edge guards
+    offs = []
+    for br in branches(F, ex):
+        for x in walk(br.desc):
+            if x[0] == 'call' and x[1] in ('u64::checked_sub', 'u64::saturating_sub', 'u64::wrapping_sub') and len(x[3]) == 2 and _pn_expected(x[3][0]):
+                offs.append(x[3][1])
+            elif _bin(x, 'Sub') and _pn_expected(x[2]):
+                offs.append(x[3])
+            elif _bin(x, 'Add') and (_pn_expected(x[2]) or _pn_expected(x[3])):
+                offs.append(x[3] if _pn_expected(x[2]) else x[2])
+    okh = len(offs) >= 2 and all(_pn_hwin(x) for x in offs)
+    ctx.check(okh, 'd', 'pn_expand_half_window', ex, ex.where(), 'both window edges are expected -/+ (1 << nbits) / 2',
+              'the window edges around `expected` are no longer half the truncation window: ' + ' | '.join(D.render(x)[:80] for x in offs))
+    # upper edge: candidate > expected + hwin ; underflow guard: candidate > win
+    up = rel_edges(F, ex, lambda o, a, b: o == 'Lt' and _pn_cand(b) and _comm(a, 'Add', _pn_expected, _pn_hwin))
+    wn = rel_edges(F, ex, lambda o, a, b: o == 'Lt' and _pn_cand(b) and _pn_win(a))
+    # lower edge: expected.checked_sub(hwin).is_some_and(|x| candidate <= x)   (or candidate <= expected - hwin / candidate + hwin <= expected)
+    lo = rel_edges(F, ex, lambda o, a, b: o == 'Le' and ((_pn_cand(a) and _bin(b, 'Sub') and _pn_expected(b[2]) and _pn_hwin(b[3])) or (_comm(a, 'Add', _pn_cand, _pn_hwin) and _pn_expected(b))))
+    for br in branches(F, ex):
+        d, neg = peel_not(br.desc)
+        if d[0] == 'call' and d[1] == 'Option::is_some_and' and len(d[3]) == 2:
+            cs, clo = d[3]
+            okc = cs[0] == 'call' and cs[1] == 'u64::checked_sub' and len(cs[3]) == 2 and _pn_expected(cs[3][0]) and _pn_hwin(cs[3][1])
+            okr = False
+            if clo[0] == 'agg' and clo[1] == 'closure' and len(clo[3]) == 1 and _pn_cand(clo[3][0]):
+                bodies = closures_of(F, ex, clo)
+                rets = [x for b in bodies for _, x in ret_descs(F, b)]
+                # the closure's only capture is the candidate: `capture <= argument`
+                okr = len(bodies) == 1 and bool(rets) and all(_bin(x, 'Le') and x[2][0] == 'upvar' and x[3][0] == 'param' for x in rets)
             if okc and okr:
-                lo = br
-    ctx.check(lo is not None, 'd', 'pn_expand_lower_edge', ex, ex.where(), 'expected.checked_sub(hwin).is_some_and(|x| candidate <= x)', 'the lower window edge is no longer `candidate <= expected - hwin`')
-    ctx.check(up is not None, 'd', 'pn_expand_upper_edge', ex, ex.where(), 'candidate > expected + hwin', 'the upper window edge is no longer `candidate > expected + hwin`')
-    ctx.check(wn is not None, 'd', 'pn_expand_no_underflow', ex, ex.where(), 'candidate > win', 'the `candidate > win` underflow guard changed')
-    # corrections: +win on the lower edge, -win on the upper edge, candidate otherwise
-    rds = flat(ret_descs(F, ex)[0][1]) if len(ret_descs(F, ex)) == 1 else [x for _, x in ret_descs(F, ex)]
-    kinds = sorted((x[1] if x[0] == 'bin' and x[1] in ('Add', 'Sub') and D.has_call(x[3], 'PacketNumber::len') else 'plain') for x in rds)
-    ctx.check(kinds == ['Add', 'Sub', 'plain'], 'd', 'pn_expand_corrections', ex, ex.where(), 'candidate + win | candidate - win | candidate', 'expand returns %s' % kinds)
+                lo.append((br, br.target(0 if neg else 1)))
+    ctx.check(bool(lo), 'd', 'pn_expand_lower_edge', ex, ex.where(), 'expected.checked_sub(hwin).is_some_and(|x| candidate <= x)', 'the lower window edge is no longer `candidate <= expected - hwin`')
+    ctx.check(bool(up), 'd', 'pn_expand_upper_edge', ex, ex.where(), 'candidate > expected + hwin', 'the upper window edge is no longer `candidate > expected + hwin`')
+    ctx.check(bool(wn), 'd', 'pn_expand_no_underflow', ex, ex.where(), 'candidate > win', 'the `candidate > win` underflow guard changed')
+    # corrections: +win exactly on the lower edge, -win exactly under (upper edge && no underflow), candidate otherwise
+    dx = describer(F, ex)
+    live = ex.live_blocks()
+    kinds = []
+    bad = []
+    for i, j, pl, rv, line in ex.assigns():
+        if i not in live or pl[0] != 0 or pl[1]:
+            continue
+        for x in flat(dx.rvalue(rv, i, j, 0)):
+            if _comm(x, 'Add', _pn_cand, _pn_win):
+                kinds.append('Add')
+                if not only_via(ex, lo, i):
+                    bad.append('`candidate + win` (line %d) is not confined to the lower-edge branch' % line)
+            elif _bin(x, 'Sub') and _pn_cand(x[2]) and _pn_win(x[3]):
+                kinds.append('Sub')
+                if not (only_via(ex, up, i) and only_via(ex, wn, i)):
+                    bad.append('`candidate - win` (line %d) is not confined to `candidate > expected + hwin && candidate > win`' % line)
+            elif _pn_cand(x):
+                kinds.append('plain')
+                if only_via(ex, lo, i) or (only_via(ex, up, i) and only_via(ex, wn, i)):
+                    bad.append('the uncorrected candidate (line %d) is returned on a window-edge branch' % line)
+            else:
+                kinds.append('other')
+                bad.append('line %d returns %s' % (line, D.render(x)[:100]))
+    kinds.sort()
+    ctx.check(kinds == ['Add', 'Sub', 'plain'] and not bad, 'd', 'pn_expand_corrections', ex, ex.where(), 'candidate + win | candidate - win | candidate, each on its own branch',
+              'expand returns %s%s' % (kinds, ('; ' + '; '.join(bad)) if bad else ''))
+
+
+# RFC 9000 section 17.2, table 5: long packet type bits
+LONG_TYPE_BITS = {'Initial': 0, 'Standard(ZeroRtt)': 1, 'Standard(Handshake)': 2, 'Retry': 3}
+
+
+def _lht_key(x):
+    """'Initial' | 'Retry' | 'Standard(<LongType variant>)' for a LongHeaderType aggregate descriptor"""
+    if not (x[0] == 'agg' and x[1] == 'adt' and '::LongHeaderType::' in '::' + x[2]):
+        return None
+    v = x[2].split('::')[-1]
+    if x[3]:
+        inner = [y[2].split('::')[-1] if (y[0] == 'agg' and y[1] == 'adt' and '::LongType::' in '::' + y[2]) else '?' for y in flat(x[3][0])]
+        return '%s(%s)' % (v, '|'.join(sorted(inner)))
+    return v
+
+
+def _variant_of_edge(F, br, val):
+    """variant name selected by the edge `val` (None = otherwise) of a switch on an enum discriminant"""
+    d = br.desc[1]
+    if d[0] == 'param' and d[1] == 1:
+        adt = F.adt('packet::LongHeaderType')
+    elif d[0] == 'field' and d[2] == '0' and d[1][0] == 'variant' and d[1][2] == 'Standard' and d[1][1][0] == 'param' and d[1][1][1] == 1:
+        adt = F.adt('packet::LongType')
+    else:
+        return None, None
+    names = {int(v['discr']): v['name'] for v in adt['variants']}
+    if val is not None:
+        return adt, names.get(val)
+    rest = [n for k, n in names.items() if k not in {v for v, _ in br.edges if v is not None}]
+    return adt, (rest[0] if len(rest) == 1 else None)
 
 
 def rule_e(ctx):
     F = ctx.facts
     fb = ctx.pfn('LongHeaderType::from_byte')
-    tb = ctx.pfn('<u8 as From>::from') if F.try_fn('<u8 as From>::from', 'quinn_proto') else None
+    type_bits = lambda d: all(evs(d, {1: {b}}) == {(b >> 4) & 3} for b in range(256))
     disp = [br for br in branches(F, fb) if len(br.edges) >= 4]
-    vals = set()
-    for br in disp:
-        vals |= set(switch_values(br))
-    ctx.check({0, 1, 2} <= vals, 'e', 'long_type_decode_table', fb, fb.where(), 'arms %s' % sorted(vals), 'LongHeaderType::from_byte arms changed: %s' % sorted(vals))
-    enc = [b for b in F.fns('<u8 as From>::from') if b.crate == 'quinn_proto' and any('LongHeaderType' in x[0] for x in b.locals)]
-    okc = False
-    for b in enc:
-        shl = set()
+    # decode side extracts the two type bits: (b & 0x30) >> 4 (decided by evaluating the scrutinee for every byte)
+    tdisp = [br for br in disp if type_bits(br.desc)]
+    ctx.check(len(tdisp) == 1, 'e', 'long_type_decode_bits', fb, fb.where(), '(b & 0x30) >> 4', 'LongHeaderType::from_byte no longer dispatches on bits 4-5 of the first byte: %s' % [D.render(br.desc)[:80] for br in disp])
+    # decode table: value of the type bits -> variant constructed on that edge (and only there)
+    dec = {}
+    dx = describer(F, fb)
+    for br in (tdisp or disp)[:1]:
+        reach = {t: fb.reachable_from(t) for _, t in br.edges}
+        for v, t in br.edges:
+            if v is None:
+                continue
+            own = set(reach[t])
+            for t2, r2 in reach.items():
+                if t2 != t:
+                    own -= r2
+            ks = set()
+            for i, j, pl, rv, line in fb.assigns():
+                if i in own and rv[0] == 'agg' and rv[1][0] == 'adt' and rv[1][1].endswith('::LongHeaderType'):
+                    ks.add(_lht_key(dx.rvalue(rv, i, j, 0)))
+            dec[v] = '|'.join(sorted(str(k) for k in ks)) if ks else None
+    want_dec = {v: k for k, v in LONG_TYPE_BITS.items()}
+    ctx.check(dec == want_dec, 'e', 'long_type_decode_table', fb, fb.where(), 'arms %s' % sorted(dec.items()),
+              'LongHeaderType::from_byte arms %s differ from RFC 9000 table 5 %s (and from the encoder)' % (sorted(dec.items(), key=str), sorted(want_dec.items())))
+    # encode table: variant selected by the discriminant edges that lead to a return value -> type bits of that value
+    encs = [b for b in F.fns('<u8 as From>::from') if b.crate == 'quinn_proto' and b.kind == 'fn' and any('LongHeaderType' in x[0] for x in b.locals[1:2])]
+    ctx.check(len(encs) == 1, 'e', 'long_type_encoder_found', encs[0] if encs else fb, (encs[0] if encs else fb).where(), 'From<LongHeaderType> for u8', 'cannot locate From<LongHeaderType> for u8')
+    enc = {}
+    problems = []
+    for b in encs[:1]:
+        dxe = describer(F, b)
+        live = b.live_blocks()
+        dbr = [br for br in branches(F, b) if br.desc[0] == 'discr']
         for i, j, pl, rv, line in b.assigns():
-            x = describer(F, b).rvalue(rv, i, j, 0)
-            for n in walk(x):
-                if n[0] == 'bin' and n[1] == 'Shl' and n[2][0] == 'const' and n[3][0] == 'const':
-                    shl.add((int(n[2][2]), int(n[3][2])))
-        okc = {(1, 4), (2, 4), (3, 4)} <= shl
-    ctx.check(okc, 'e', 'long_type_encode_table', enc[0] if enc else fb, (enc[0] if enc else fb).where(), 'type bits 1/2/3 << 4 (Initial = 0)', 'From<LongHeaderType> for u8 constants changed')
-    # decode side extracts the same two bits: (b & 0x30) >> 4
-    dd = [D.render(br.desc) for br in disp]
-    ctx.check(any('48' in x and 'Shr' in x and '4' in x for x in dd), 'e', 'long_type_decode_bits', fb, fb.where(), '(b & 0x30) >> 4', 'LongHeaderType::from_byte no longer extracts bits 4-5')
+            if i not in live or pl[0] != 0 or pl[1]:
+                continue
+            vs = evs(dxe.rvalue(rv, i, j, 0))
+            if vs is None or len(vs) != 1:
+                problems.append('line %d: value not a constant' % line)
+                continue
+            val = next(iter(vs))
+            # discriminant edges every path to this block takes
+            outer = inner = None
+            for br in dbr:
+                for v, t in br.edges:
+                    if only_via(b, [(br, t)], i) and [x for _, x in br.edges].count(t) == 1:
+                        adt, name = _variant_of_edge(F, br, v)
+                        if adt is None or name is None:
+                            continue
+                        if adt['path'].endswith('::LongHeaderType'):
+                            outer = name
+                        else:
+                            inner = name
+            if outer is None or (outer == 'Standard') != (inner is not None):
+                problems.append('line %d: cannot tell which variant this arm encodes' % line)
+                continue
+            key = '%s(%s)' % (outer, inner) if inner else outer
+            if key in enc and enc[key] != (val >> 4) & 3:
+                problems.append('%s encoded twice' % key)
+            enc[key] = (val >> 4) & 3
+    ctx.check(enc == LONG_TYPE_BITS and not problems, 'e', 'long_type_encode_table', encs[0] if encs else fb, (encs[0] if encs else fb).where(), 'type bits %s << 4 (Initial = 0)' % sorted(enc.items()),
+              'From<LongHeaderType> for u8 encodes %s, RFC 9000 table 5 (and from_byte) say %s; %s' % (sorted(enc.items()), sorted(LONG_TYPE_BITS.items()), '; '.join(problems)))
+
+
+def _is_dgram_len(d):
+    """length of the whole datagram held by the cursor: <buf>.get_ref().len()"""
+    return d[0] == 'call' and d[1].rsplit('::', 1)[-1] == 'len' and len(d[3]) == 1 and d[3][0][0] == 'call' and d[3][0][1] == 'Cursor::get_ref'
+
+
+def _is_packet_len(F, body, d):
+    """header length + payload length when the header has a length field, else the datagram length:
+    payload_len().map(|len| position + len).unwrap_or(dgram_len) | .map_or(dgram_len, |len| ..) | match form"""
+    def hdr_plus_len(clo):
+        if not (clo[0] == 'agg' and clo[1] == 'closure'):
+            return False
+        bodies = closures_of(F, body, clo)
+        rets = [x for b in bodies for _, x in ret_descs(F, b)]
+        return len(bodies) == 1 and bool(rets) and all(
+            _comm(x, 'Add', lambda y: y[0] == 'call' and y[1] == 'Cursor::position' and len(y[3]) == 1 and y[3][0][0] == 'upvar', lambda y: y[0] == 'param') for x in rets)
+    plen = lambda x: x[0] == 'call' and x[1] == 'ProtectedHeader::payload_len'
+    if d[0] == 'call' and d[1] == 'Option::unwrap_or' and len(d[3]) == 2:
+        m, dflt = d[3]
+        return _is_dgram_len(dflt) and m[0] == 'call' and m[1] == 'Option::map' and len(m[3]) == 2 and plen(m[3][0]) and hdr_plus_len(m[3][1])
+    if d[0] == 'call' and d[1] == 'Option::map_or' and len(d[3]) == 3:
+        return plen(d[3][0]) and _is_dgram_len(d[3][1]) and hdr_plus_len(d[3][2])
+    if d[0] == 'phi' and len(d[1]) == 2:
+        some = lambda y: y[0] == 'field' and y[2] == '0' and y[1][0] == 'variant' and y[1][2] == 'Some' and plen(y[1][1])
+        pos = lambda y: y[0] == 'call' and y[1] == 'Cursor::position'
+        return any(_is_dgram_len(x) for x in d[1]) and any(_comm(x, 'Add', pos, some) for x in d[1])
+    return False
 
 
 def rule_f(ctx):
@@ -235,17 +565,63 @@ def rule_f(ctx):
     pd = ctx.pfn('PartialDecode::new')
     so = pd.calls_to('BytesMut::split_off')
     ctx.floor('f', 'coalesced_split_sites', len(so), 1)
+    pkt = lambda d: _is_packet_len(F, pd, d)
     for c in so:
         a = arg_desc(F, c, 1)
-        ok = D.has_call(a, 'Cursor::position') or 'position' in D.render(a) or 'len' in D.render(a)
-        ctx.check(ok, 'f', 'split_at_header_plus_length', pd, c.where(), D.render(a)[:120], 'coalesced packets are not split at position + len: ' + D.render(a)[:160])
-    # truncated length rejected before the split
-    g = guard_edges(ctx, pd, lambda o, x, y: o == 'Lt' and ('len' in D.render(x) or 'remaining' in D.render(x)) and ('len' in D.render(y) or 'position' in D.render(y)))
-    ctx.check(bool(g) or bool(pd.calls_to('usize::checked_add')) or bool([c for c in pd.calls() if 'Ordering' in ' '.join(c.ga) or c.is_('Ord::cmp')]), 'f', 'truncated_packet_rejected', pd, pd.where(), 'length comparison present', 'PartialDecode::new no longer compares the encoded length with the datagram length')
+        ctx.check(pkt(a), 'f', 'split_at_header_plus_length', pd, c.where(), 'split_off(payload_len.map(|len| position + len).unwrap_or(dgram_len))', 'coalesced packets are not split at position + len: ' + D.render(a)[:160])
+    # truncated length: on every edge where dgram_len < packet_len holds, every path ends in InvalidHeader and no split happens
+    viol = rel_edges(F, pd, lambda o, a, b: o == 'Lt' and _is_dgram_len(a) and pkt(b))
+    for br in branches(F, pd):
+        d = br.desc
+        if d[0] == 'discr' and d[1][0] == 'call' and d[1][1].rsplit('::', 1)[-1] == 'cmp' and 'Ord' in d[1][1] and len(d[1][3]) == 2:
+            x, y = d[1][3]
+            if _is_dgram_len(x) and pkt(y):
+                viol.append((br, br.target(-1 if any(v == -1 for v, _ in br.edges) else 255)))   # Ordering::Less (i8 -1, printed as u8)
+            elif pkt(x) and _is_dgram_len(y):
+                viol.append((br, br.target(1)))    # Ordering::Greater
+    eff = effect_blocks(ctx, pd, variant=('packet::PacketDecodeError', 'InvalidHeader'))
+    bad = []
+    for br, tgt in viol:
+        p = path_avoiding(pd, [tgt], set(pd.return_blocks()) | {c.bb for c in so}, eff) if eff else [tgt]
+        if p is not None:
+            bad.append('%s: %s' % (br.where(), fmt_path(pd, p)))
+    ctx.check(bool(viol) and not bad, 'f', 'truncated_packet_rejected', pd, pd.where(), 'dgram_len < packet_len always ends in PacketDecodeError::InvalidHeader (%d edge(s))' % len(viol),
+              ('when the encoded length exceeds the datagram a path avoids PacketDecodeError::InvalidHeader: ' + '; '.join(bad)) if viol else 'PartialDecode::new no longer compares the datagram length with the encoded packet length')
+
+
+def rule_a_scan(ctx):
+    """consumed-count idiom of scan_ack_blocks (discharges the split_to in Iter::try_next): the minuend `remaining()` is
+    sampled before ANY other use of the buffer and the subtrahend `remaining()` after the last one"""
+    F = ctx.facts
+    sc = ctx.pfn('frame::scan_ack_blocks')
+    live = sc.live_blocks()
+    is_rem = lambda x: x[0] == 'call' and D._trait_form(x[1]).endswith('Buf::remaining') and len(x[3]) == 1 and x[3][0][0] == 'param' and len(x) > 4
+    oks = [y for _, x in ret_descs(F, sc) for y in flat(x) if y[0] == 'agg' and y[2].endswith('Result::Ok')]
+    why = []
+    if not oks:
+        why.append('no Ok(..) return')
+    for x in oks:
+        v = x[3][0] if x[3] else ('const', 'other', '', '')
+        if not (_bin(v, 'Sub') and is_rem(v[2]) and is_rem(v[3]) and v[2][3][0] == v[3][3][0]):
+            why.append('returns Ok(%s), not a difference of remaining() of the scanned buffer' % D.render(v)[:100])
+            continue
+        buf, first, last = v[2][3][0], v[2][4], v[3][4]
+        for c in sc.calls():
+            if c.bb not in live or c.bb in (first, last):
+                continue
+            if any(arg_desc(F, c, k) == buf for k in range(len(c.args))):
+                if not sc.dominates(first, c.bb):
+                    why.append('%s at line %d can run before the total length is sampled' % (short(c.f), c.line))
+                if c.bb in sc.reachable_from(last):
+                    why.append('%s at line %d can run after the final remaining()' % (short(c.f), c.line))
+        if not sc.dominates(first, last):
+            why.append('the final remaining() is not dominated by the initial one')
+    ctx.check(not why, 'a', 'scan_returns_consumed_count', sc, sc.where(), 'Ok(remaining() at entry - remaining() at exit), no use of the buffer outside the two samples', 'scan_ack_blocks does not return the consumed byte count: ' + '; '.join(why))
 
 
 def run(ctx):
     _c03.guarded_reads(ctx, 'a')
+    rule_a_scan(ctx)
     rule_b(ctx)
     rule_c(ctx)
     rule_d(ctx)
